@@ -70,6 +70,11 @@ def reader_info(fn):
             k = str_const(n.args[0])
             if k is not None:
                 consumed.setdefault(k, n)
+        # the units lookup reads the literal key "units" of the dictionary it is handed
+        if isinstance(n, ast.Call) and pyfe.call_name(n).endswith("retrive_units_system_from_dict"):
+            a0 = pyfe.arg(n, 0, "d")
+            if isinstance(a0, ast.Name) and a0.id == dname:
+                consumed.setdefault("units", n)
     # da["param"] = <expr over d[...] or locals derived from d[...]>
     local_src = {}
     for n in ast.walk(fn):
